@@ -6,6 +6,7 @@ pub mod core;
 pub mod corekit;
 pub mod corelab;
 pub mod env;
+pub mod prag;
 pub mod sim;
 pub mod stubs;
 
